@@ -271,8 +271,10 @@ impl ProgressBar {
 
     /// Update the `ProgressBar`'s inner [`ProgressState`]
     pub fn update(&self, f: impl FnOnce(&mut ProgressState)) {
-        self.state()
-            .update(Instant::now(), f, self.ticker.lock().unwrap().is_none());
+        // Check the ticker slot before taking the bar state: locking them in the other order can
+        // deadlock against a thread that holds the ticker slot while joining the ticker thread.
+        let tick = self.ticker.lock().unwrap().is_none();
+        self.state().update(Instant::now(), f, tick);
     }
 
     /// Sets the position of the progress bar
